@@ -200,7 +200,8 @@ SPECIFIC = {'det(2)': ('ArgumentShapeError', 'received a scalar, expected a squa
             'min(v,1)': ('ArgumentShapeError', 'received a vector of length 2, expected a scalar'), 'abs(A)': ('FunctionEvalError', 'try norm(...) instead'),
             'A^0.5': ('MathArrayError', 'non-integer powers'), 'A+1': ('MathArrayShapeError', 'Cannot add/subtract scalars to a matrix'),
             'v*v*v': ('CalcError', 'three or more vectors is ambiguous'), 'sin(1,2)': ('ArgumentError', 'Expected 1 inputs, but received 2'),
-            'kronecker(1)': ('ArgumentError', 'Expected 2 inputs, but received 1'), 'norm(2)': ('InputTypeError', 'Expected answer to be a matrix, but input is a scalar')}
+            'kronecker(1)': ('ArgumentError', 'Expected 2 inputs, but received 1'), '1e200*i*1e200+A': ('CalcOverflowError', 'overflow'), 'A*0+[[1e200*i*1e200,1],[1,1]]': ('CalcOverflowError', 'overflow'),
+            '1e200*1e200+A': ('CalcOverflowError', 'overflow'), 'A*1e200*1e200': ('CalcOverflowError', 'overflow'), '(1e200+i)*1e200+A': ('CalcOverflowError', 'overflow'), 'norm(2)': ('InputTypeError', 'Expected answer to be a matrix, but input is a scalar')}
 
 
 def h_specific(E, expr):
